@@ -78,8 +78,14 @@ type solveOpts struct {
 func decide(o *obligation, opts solveOpts) {
 	script := o.ctx.scriptMode(o.NAssume, o.Goal, nil, o.ExpectSat)
 	o.SizeB = len(script)
-	if o.ExpectSat && opts.timeout > 5*time.Second {
-		opts.timeout = 5 * time.Second
+	if o.ExpectSat {
+		// vacuity probes: a contradiction among the assumptions is found quickly by instantiation or not at all;
+		// finding a model of quantified assumptions is often beyond the solvers, and "inconclusive" is tolerated
+		if opts.twoVotes && opts.timeout > 10*time.Second {
+			opts.timeout = 10 * time.Second
+		} else if !opts.twoVotes && opts.timeout > 3*time.Second {
+			opts.timeout = 3 * time.Second
+		}
 	}
 	if opts.dumpDir != "" {
 		os.MkdirAll(opts.dumpDir, 0o755)
@@ -98,6 +104,9 @@ func decide(o *obligation, opts solveOpts) {
 		votes++
 	}
 	needMore := r.status != "unsat" && r.status != "sat"
+	if o.ExpectSat && !opts.twoVotes {
+		needMore = false
+	}
 	if opts.twoVotes && r.status == want && !o.ExpectSat {
 		needMore = true
 	}
